@@ -18,6 +18,8 @@ THEOREMS = [
     "TornadoModel.C26.handle_inside_root",
     "TornadoModel.C26.sibling_excluded",
     "TornadoModel.C26.pjoin_simple",
+    "TornadoModel.C26.prefix_is_containment",
+    "TornadoModel.C26.root_test_is_containment",
 ]
 TRUSTED = [
     "CPython posixpath.join/normpath/abspath (C `_path_normpath`), urllib.parse.unquote_to_bytes and the UTF-8 decoder, "
@@ -38,11 +40,13 @@ EXHAUSTIVE = {"quick": False, "thorough": False}
 CLAUSES = {
     "serves, redirects or reveals existence only if the normalized absolute path lies inside root":
         "served_inside_root + handle_inside_root (every filesystem query, opened file and redirect only after the root test passed on the "
-        "normalized path) + normpath_no_dotdot/absolutePath_normalized (that path has no '..'); tie only: prefix_is_containment_goal "
-        "(string test <=> Spec.inside) — the oracle applies Spec.inside to every recorded filesystem query",
+        "normalized path) + normpath_no_dotdot/absolutePath_normalized (that path has no '..') + prefix_is_containment / "
+        "root_test_is_containment (for an absolute root other than '/': string test <=> Spec.inside component-wise, same number of leading "
+        "slashes); the oracle additionally applies Spec.inside to every recorded filesystem query",
     "including the default file of a directory": "served_inside_root (path is a or join(a, default_filename)) + pjoin_simple",
     "everything else yields 403 or 404": "outside_root_uniform_403 (403 before any filesystem query, for every filesystem) + outcome_cases",
-    "sibling directories sharing the root's name prefix are excluded": "sibling_excluded (string level: after the root text a `/` is demanded)",
+    "sibling directories sharing the root's name prefix are excluded": "prefix_is_containment (root's component list must be a list prefix of the path's, so root2/rootx differ in a "
+        "whole component) + sibling_excluded (string level: after the root text a `/` is demanded)",
 }
 PARALLEL = True
 CASE_TIMEOUT = 120
